@@ -193,6 +193,7 @@ def run(ctx):
     token_readers_guarded(ctx, "R04-h")
     every_attribute_contributes(ctx, "R04-i")
     module_file_attrs_scope(ctx, "R04-j")
+    reordering_spares_skipped_items(ctx, "R04-k")
 
 
 def spelling(ctx, rid):
@@ -779,3 +780,47 @@ def module_file_attrs_scope(ctx, rid):
                     "`#![rustfmt::skip::macros(..)]` / `#![rustfmt::skip::attributes(..)]` of an out-of-line module file are "
                     "ignored when the file is formatted through its parent", ["%s:%d" % (f.file, f.line)])
     r.floor(rid, len(upd), 1, "update_with_attrs calls in format_file")
+
+
+def reordering_spares_skipped_items(ctx, rid):
+    """R04-k: an item marked skip is never classified as reorderable"""
+    from absint import explore, vkey
+    p, r = ctx.p, ctx.r
+    r.rule(rid, "reorder::ReorderableItemKind::from answers ExternCrate / Mod / Use — the kinds that walk_reorderable_items sorts and "
+                "re-renders from the AST, without ever reaching visit_item's own skip test — only on paths on which "
+                "`utils::contains_skip(item.attrs)` answered false.  contains_skip is the one test that knows every spelling of the "
+                "marker (`#[rustfmt::skip]`, `#[rustfmt_skip]`, either inside `cfg_attr`); `skip::is_skip_attr` recognises the bare "
+                "path only and serves the unknown-attribute diagnostic, so its callers are confined to visitor::is_unknown_rustfmt_attr "
+                "(and skip.rs itself)")
+    f = p.named("from", within="ReorderableItemKind")
+    if f is None:
+        r.undecidable(rid, "reorder::ReorderableItemKind::from not found")
+        return
+    paths = explore(f, pure=lambda c: True, max_paths=5000, program=p, inline="auto")
+    n = 0
+    for path in paths:
+        if path.end != "ret" or path.ret is None:
+            continue
+        kind = vkey(path.ret)
+        if kind not in ("ExternCrate", "Mod", "Use"):
+            continue
+        n += 1
+        import c11
+        ok = c11.pin_guard(p, list(path.decisions))[0] is False or any(
+            v is False and "utils::contains_skip(arg1.attrs" in k and "BitAnd" not in k and "!" not in k for k, v in path.decisions)
+        r.instance(rid, "ReorderableItemKind::from ↦ %s" % kind, "ok" if ok else "violation", "%s:%d" % (f.file, f.line),
+                   "contains_skip(item.attrs) = false on the path" if ok else
+                   "decided by %s" % [k[-50:] for k, v in path.decisions][:3])
+        if not ok:
+            r.violation(rid, "ReorderableItemKind::from classifies an item as %s without contains_skip having answered false" % kind,
+                        "a skip-marked use / mod / extern crate declaration is sorted with its neighbours and re-rendered",
+                        ["%s:%d" % (f.file, f.line)])
+    r.floor(rid, n, 3, "paths of ReorderableItemKind::from that answer a reorderable kind")
+    callers = sorted({short(g.id).split("::{closure")[0] for g in p.by_crate["rustfmt_nightly"] for c in g.calls()
+                      if c.name.endswith("skip::is_skip_attr") and not short(g.id).startswith("skip::")})
+    okc = set(callers) <= {"visitor::FmtVisitor::<'a>::is_unknown_rustfmt_attr"}
+    r.instance(rid, "callers of skip::is_skip_attr outside skip.rs: %s" % callers, "ok" if okc else "violation", "src/skip.rs")
+    if not okc:
+        r.violation(rid, "skip::is_skip_attr is used as a skip test by %s" % sorted(set(callers) - {"visitor::FmtVisitor::<'a>::is_unknown_rustfmt_attr"}),
+                    "it does not look inside cfg_attr and does not know `rustfmt_skip`: items marked that way are not recognised",
+                    ["src/skip.rs"])
